@@ -392,12 +392,18 @@ func checkC08(p *Program, r *Report) {
 		fname := funcName(fn)
 		loops := loopsOf(fn)
 		groups := map[string][]*evalEvent{}
+		parts := map[string][]*evalEvent{}
 		for _, e := range va.events[fn] {
 			if e.role == "let" {
 				continue
 			}
 			for _, o := range e.operands {
 				if !strings.HasPrefix(o, "node.") || !strings.HasSuffix(o, "]") {
+					// a part of an element evaluated in place (`node.Stmts[i].(ExprStmt).Expr`: the element's own handler inlined)
+					// counts as an evaluation of that element where the element itself is evaluated on other paths
+					if i := strings.Index(o, "]."); strings.HasPrefix(o, "node.") && i > 0 && !strings.Contains(o[:i], "].") {
+						parts[normIdx(o[:i+1])] = append(parts[normIdx(o[:i+1])], e)
+					}
 					continue // only elements of operand lists; bodies and filtered elements are conditional by design
 				}
 				groups[normIdx(o)] = append(groups[normIdx(o)], e)
@@ -458,6 +464,9 @@ func checkC08(p *Program, r *Report) {
 					must[chain[ci+1].Header] = true
 				} else {
 					for _, e := range evs {
+						must[e.call.Block()] = true
+					}
+					for _, e := range parts[k] {
 						must[e.call.Block()] = true
 					}
 				}
